@@ -1063,6 +1063,10 @@ func main() {
 			hs[i] = genHistory(seed, i, ln, profile)
 		}
 		runAll(hs, every)
+	case "list":
+		n, _ := strconv.Atoi(os.Args[2])
+		seed, _ := strconv.ParseUint(os.Getenv("VERIF_SEED"), 10, 64)
+		runList(n, seed)
 	case "replay":
 		every, _ := strconv.Atoi(os.Args[2])
 		var hs [][]Op
